@@ -37,6 +37,9 @@ func readAudit(dir, path string) (*auditJSON, error) {
 	if err := dec.Decode(&a); err != nil {
 		return nil, err
 	}
+	if rest, _ := ioutil.ReadAll(dec.Buffered()); strings.TrimSpace(string(rest)) != "" {
+		return nil, fmt.Errorf("%d bytes of trailing data after the record", len(strings.TrimSpace(string(rest))))
+	}
 	return &a, nil
 }
 
@@ -407,6 +410,22 @@ func runC11(ctx *Ctx, c c11Case) {
 	case "crash":
 		RunWorkflow(d, RunOpts{Dir: dir, Env: []string{fmt.Sprintf("VERIF_CRASH_AT=%s#%d", c.Arg, c.N)}})
 		removeLeftovers(dir)
+	case "stale":
+		// the outputs of the last level are lost but their audit files stay behind, longer than the records the re-run
+		// will write (an earlier attempt with more to say): the new record replaces the stale one completely
+		if r := RunWorkflow(d, RunOpts{Dir: dir}); r.Exit != 0 {
+			return
+		}
+		lastL := len(c.Chain.Levels) - 1
+		for _, x := range c.Chain.Inputs {
+			p := c.Chain.pathAt(x, lastL)
+			os.Remove(filepath.Join(dir, p))
+			ap := filepath.Join(dir, p+".audit.json")
+			if b, err := ioutil.ReadFile(ap); err == nil {
+				stale := strings.Replace(string(b), "{", "{\n    \"Stale\": \""+strings.Repeat("x", 300)+"\",", 1)
+				ioutil.WriteFile(ap, []byte(stale), 0644)
+			}
+		}
 	case "delete":
 		if r := RunWorkflow(d, RunOpts{Dir: dir}); r.Exit != 0 {
 			return
@@ -585,6 +604,7 @@ func checkC11(ctx *Ctx) {
 	cases = append(cases, c11Case{Chain: Chain{Inputs: []string{"a.txt", "b.txt"}, Levels: []Level{{}, {}}, Max: 2}, Mode: "inproc"})
 	tch := Chain{Inputs: []string{"a.txt", "b.txt"}, Levels: []Level{{}, {}, {}}, Max: 2}
 	cases = append(cases, c11Case{Chain: tch, Mode: "truncate", Arg: tch.procName(0)})
+	cases = append(cases, c11Case{Chain: tch, Mode: "stale"})
 	parallel(len(cases), 6, func(i int) {
 		if ctx.TimeLeft() {
 			runC11(ctx, cases[i])
